@@ -22,6 +22,9 @@ LEVELS = {
     "y2": ["Ya", "Yb", "Yc"],
 }
 UNSEEN = {"f": "Fzz", "g": "Gzz", "h": "Hzz", "c": "Czz", "o": "Ozz", "k": 97}
+# several different unseen labels per variable: sorting after, before and between the known ones
+UNSEEN_MORE = {"f": ["Fzz", "Aaf", "Fbz"], "g": ["Gzz", "Aag", "Gbz"], "h": ["Hzz", "Aah", "Hbz"],
+               "c": ["Czz", "Aac", "Cnn"], "o": ["Ozz", "Aao", "Onn"], "k": [97, -5, 55]}
 MODES = ["error", "warning", "silent"]
 KEY = "EVAL_UNSEEN_CATEGORIES"
 
@@ -642,15 +645,23 @@ class Gen:
                     "index": list(spec["index"])}
         where = {}
         for v in chosen:
-            k = r.randint(1, max(1, n // 2))
+            k = n if r.random() < 0.12 else r.randint(1, max(1, n // 2))  # sometimes EVERY row is unseen
             rows = sorted(r.sample(range(n), min(n, k)))
             c = F.col(polluted, v)
-            for i in rows:
-                c[2][i] = UNSEEN[v]
+            labels = UNSEEN_MORE[v][: r.choice([1, 1, 2, 3])]
+            r.shuffle(labels)
+            used_labels = []
+            for j, i in enumerate(rows):
+                lab = labels[j % len(labels)]
+                c[2][i] = lab
+                if lab not in used_labels:
+                    used_labels.append(lab)
             if c[1] == "cat":
                 # a categorical column must list the label among its categories to hold it
-                c[3] = {"categories": list(c[3]["categories"]) + [UNSEEN[v]],
-                        "ordered": c[3]["ordered"]}
+                cats = list(c[3]["categories"])
+                for lab in used_labels:
+                    cats.insert(r.randrange(len(cats) + 1), lab)
+                c[3] = {"categories": cats, "ordered": c[3]["ordered"]}
             where[v] = rows
         return polluted, where
 
